@@ -230,6 +230,31 @@ pub fn entry_points() -> Vec<EntryPoint> {
     v.push(acc!("Decoder::map_iter::<&str,Int>", "iterator", |d, buf| { match d.map_iter::<&str, Int>() { Err(_) => Ok(false), Ok(it) => { for c in it { match c { Ok((s, _)) => inb(s.as_ptr(), s.len(), buf, "map_iter")?, Err(_) => return Ok(false) } } Ok(true) } } }));
     v.push(acc!("Decoder::array_iter_with", "iterator", |d, buf| { let mut ctx = 0u8; match d.array_iter_with::<u8, i16>(&mut ctx) { Err(_) => Ok(false), Ok(it) => { for c in it { if c.is_err() { return Ok(false) } } Ok(true) } } }));
     v.push(acc!("Decoder::map_iter_with", "iterator", |d, buf| { let mut ctx = 0u8; match d.map_iter_with::<u8, i16, bool>(&mut ctx) { Err(_) => Ok(false), Ok(it) => { for c in it { if c.is_err() { return Ok(false) } } Ok(true) } } }));
+    // size hints of the decoder's iterators: std consumers (collect, extend, with_capacity) allocate by the lower bound,
+    // so it may never exceed what the remaining input can back (one byte per element, two per map entry)
+    macro_rules! hint { ($name:expr, |$d:ident| $make:expr, $probe:expr, $per:expr) => {
+        v.push(acc!($name, "iterator", |$d, buf| {
+            let after_head = { let mut p = $d.probe(); let f: fn(&mut Decoder<'_>) = $probe; f(&mut p); p.position().min(buf.len()) };
+            let left = buf.len() - after_head;
+            match $make {
+                Err(_) => Ok(false),
+                Ok(mut it) => {
+                    for round in 0 .. 4 {
+                        let (lo, hi) = it.size_hint();
+                        if lo.saturating_mul($per) > left { return Err(format!("size_hint() promises at least {} more items with {} input bytes left (round {})", lo, left, round)) }
+                        if let Some(h) = hi { if h < lo { return Err(format!("size_hint() = ({}, Some({}))", lo, h)) } }
+                        match it.next() { None => { if lo > 0 { return Err(format!("size_hint() promised {} items but the iterator ended", lo)) } break } Some(Err(_)) => return Ok(false), Some(Ok(_)) => {} }
+                    }
+                    Ok(true)
+                }
+            }
+        }));
+    }}
+    hint!("array_iter::<u8>().size_hint", |d| d.array_iter::<u8>(), |p| { let _ = p.array(); }, 1);
+    hint!("array_iter::<Token>().size_hint", |d| d.array_iter::<Token>(), |p| { let _ = p.array(); }, 1);
+    hint!("map_iter::<u8,u8>().size_hint", |d| d.map_iter::<u8, u8>(), |p| { let _ = p.map(); }, 2);
+    hint!("bytes_iter().size_hint", |d| d.bytes_iter(), |_p| {}, 0);
+    hint!("str_iter().size_hint", |d| d.str_iter(), |_p| {}, 0);
     v.push(acc!("Decoder::tokens().collect", "tokens", |d, buf| { match d.tokens().collect::<Result<Vec<Token>, Error>>() { Ok(ts) => { for t in &ts { match t { Token::Bytes(b) => inb(b.as_ptr(), b.len(), buf, "Token::Bytes")?, Token::String(s) => inb(s.as_ptr(), s.len(), buf, "Token::String")?, _ => {} } } Ok(true) } Err(_) => Ok(false) } }));
     v.push(acc!("Tokenizer stepped past its end", "tokens", |d, buf| {
         let mut t = Tokenizer::from(d.clone());
